@@ -517,7 +517,11 @@ func reflectGuardedFlow(fn *ssa.Function, s reflectSite, subjects []ssa.Value, v
 			case *ssa.Call:
 				// isListKind(v.Kind()): a helper of the package that is a pure predicate over a kind
 				if g := x.Call.StaticCallee(); g != nil && len(x.Call.Args) == 1 {
-					if sub, ok := kindCallOn(x.Call.Args[0]); ok {
+					sub, ok := kindCallOn(x.Call.Args[0])
+					if !ok && (isReflectValue(x.Call.Args[0].Type()) || isReflectType(x.Call.Args[0].Type())) && isTwigFn(g) {
+						sub, ok = x.Call.Args[0], true // isSequence(v): the helper asks v.Kind() itself
+					}
+					if ok {
 						match := false
 						for _, sj := range subjects {
 							if sameReflect(sub, sj) {
@@ -1100,7 +1104,11 @@ func kindPredicateSet(g *ssa.Function) (map[int64]bool, bool) {
 		return m, m != nil
 	}
 	kindPredMemo[g] = nil
-	if !isTwigFn(g) || len(g.Blocks) == 0 || len(g.Params) != 1 || !isNamed(g.Params[0].Type(), "reflect", "Kind") {
+	if !isTwigFn(g) || len(g.Blocks) == 0 || len(g.Params) != 1 {
+		return nil, false
+	}
+	// a predicate over a kind, or over a value / type that looks at nothing but its kind
+	if !isNamed(g.Params[0].Type(), "reflect", "Kind") && !isReflectValue(g.Params[0].Type()) && !isReflectType(g.Params[0].Type()) {
 		return nil, false
 	}
 	if g.Signature.Results().Len() != 1 || !types.Identical(g.Signature.Results().At(0).Type().Underlying(), types.Typ[types.Bool]) {
@@ -1177,6 +1185,13 @@ func interpretKindPredicate(g *ssa.Function, k int64) (bool, bool) {
 					return false, false
 				}
 				vals[x] = a
+			case *ssa.Call:
+				// param.Kind() where the parameter is the value / type itself
+				sub, ok := kindCallOn(x)
+				if !ok || unspill(sub) != ssa.Value(g.Params[0]) {
+					return false, false
+				}
+				vals[x] = constant.MakeInt64(k)
 			case *ssa.If:
 				c, ok := get(x.Cond)
 				if !ok {
